@@ -53,24 +53,23 @@ Section SMT.
   Definition lhb_root : list bool -> list N -> list N :=
     fun k v => H (pack (nibbles_of_bits k) ++ v).
 
-  Definition max_len {V} (S : list (list N * V)) : nat :=
-    fold_right (fun kv m => Nat.max (length (fst kv)) m) O S.
-
-  (* commitment of a map from nibble-list keys to 32-byte values *)
-  Definition smt_root (S : list (list N * list N)) : list N :=
-    smt (4 * max_len S + 1) lhb_root (map (fun kv => (bits_of_nibbles (fst kv), snd kv)) S).
+  (* commitment of a map from nibble-list keys to 32-byte values; n = any bound on the key lengths
+     (in nibbles): the recursion consumes one bit per step and a prefix-free map of keys shorter
+     than n is exhausted after 4 n steps (theorem C17_smt_bound_irrelevant) *)
+  Definition smt_root (n : nat) (S : list (list N * list N)) : list N :=
+    smt (4 * n) lhb_root (map (fun kv => (bits_of_nibbles (fst kv), snd kv)) S).
 
   (* ---- substate database: entity key -> partition key -> sort key -> value ---- *)
   Definition pmap := list (list N * list N).                 (* sort key -> value *)
   Definition emap := list (list N * pmap).                   (* partition key -> partition *)
   Definition dbmap := list (list N * emap).                  (* entity key -> entity *)
 
-  Definition partition_root (p : pmap) : list N :=
-    smt_root (map (fun kv => (fst kv, H (snd kv))) p).
-  Definition entity_root (e : emap) : list N :=
-    smt_root (map (fun kp => (fst kp, partition_root (snd kp))) e).
-  Definition db_root (d : dbmap) : list N :=
-    smt_root (map (fun ke => (fst ke, entity_root (snd ke))) d).
+  Definition partition_root (n : nat) (p : pmap) : list N :=
+    smt_root n (map (fun kv => (fst kv, H (snd kv))) p).
+  Definition entity_root (n : nat) (e : emap) : list N :=
+    smt_root n (map (fun kp => (fst kp, partition_root n (snd kp))) e).
+  Definition db_root (n : nat) (d : dbmap) : list N :=
+    smt_root n (map (fun ke => (fst ke, entity_root n (snd ke))) d).
 End SMT.
 
 (* ---- what a commit means on the database (DatabaseUpdates semantics) ---- *)
